@@ -240,6 +240,13 @@ def single_call(ctx, prop, cases, variant="default", force=None, mode="run", mod
             if o != "ok" and prop in o:
                 ctx.fail(c, "oracle check_%s fails on the implementation's observation" % prop, impl=iraw, oracle=o)
                 continue
+        if prop == "C04" and c[0] == "A" and c[3] >= 2 and kind in "qp" and any(t[0] != "W" for t in I.exposed):
+            # a fresh value through an uninit entry point: whatever `headers` exposes afterwards was handed back by the
+            # parser; a slot it did not write (caller memory, uninitialised memory) is not a sub-slice of the buffer
+            ctx.fail(c, "an uninit entry point on a fresh value exposes header slots the parser did not write from this "
+                     "buffer (%s): their names / values are not sub-slices of it" % " ".join(t for t in I.exposed if t[0] != "W")[:80],
+                     impl=iraw)
+            continue
         if prop in REF_PROPS and R is not None and R.status != "NA":
             if proj(prop, kind, I, start) != proj(prop, kind, R, start):
                 ctx.fail(c, "implementation differs from the reference parser on the %s projection" % prop,
